@@ -1536,8 +1536,25 @@ def run_lbfgs_scripted(case):
         a = script[min(k, len(script) - 1)]
         return (np.array(_fl(a['x']), dtype=np.float64), F64(_fl(a['f'])), {'warnflag': a['warnflag'], 'task': a['task'], 'nit': 1,
                                                                               'funcalls': 1, 'grad': np.zeros(len(a['x']))})
+    # the implementation takes scipy.optimize.fmin_l_bfgs_b when it is built / called: replace it there (no private
+    # attribute of the implementation is touched); the stand-in has the signature of the real function
+    import inspect
+    import scipy.optimize
+    import skyllh.core.minimizer as skm
+    real = scipy.optimize.fmin_l_bfgs_b
+    fmin.__signature__ = inspect.signature(real)
+    saved = [(scipy.optimize, real)] + ([(skm, skm.fmin_l_bfgs_b)] if hasattr(skm, 'fmin_l_bfgs_b') else [])
+    for (mod, _) in saved:
+        mod.fmin_l_bfgs_b = fmin
+    try:
+        return _run_lbfgs_scripted_inner(case, state, LBFGSMinimizerImpl, Minimizer, Parameter, ParameterSet, RandomStateService)
+    finally:
+        for (mod, orig) in saved:
+            mod.fmin_l_bfgs_b = orig
+
+
+def _run_lbfgs_scripted_inner(case, state, LBFGSMinimizerImpl, Minimizer, Parameter, ParameterSet, RandomStateService):
     impl = LBFGSMinimizerImpl(cfg=cfg())
-    impl._fmin_l_bfgs_b = fmin
     ps = ParameterSet([Parameter('p%d' % i, v, b[0], b[1]) for i, (v, b) in enumerate(zip(case['init'], case['bounds']))])
     grads = case.get('grads', True)
 
@@ -1549,7 +1566,13 @@ def run_lbfgs_scripted(case):
         (x, f, st) = Minimizer(impl, max_repetitions=int(case['max_reps'])).minimize(
             RandomStateService(case.get('rss', 1)), ps, func, kwargs=({} if grads else {'func_provides_grads': False}))
     except Exception as e:  # noqa
+        if not state['calls']:
+            from harness.core import MachineryError
+            raise MachineryError('C11: could not put a scripted optimiser into LBFGSMinimizerImpl (%s: %s)' % (type(e).__name__, e))
         return {'err': type(e).__name__, 'msg': str(e)[:200]}, state
+    if not state['calls']:
+        from harness.core import MachineryError
+        raise MachineryError('C11: could not put a scripted optimiser into LBFGSMinimizerImpl')
     return {'x': [float(v) for v in x], 'f': float(f), 'reps': int(st['skyllh_minimizer_n_reps'])}, state
 
 
@@ -1796,6 +1819,53 @@ def gen_generic_objective_case(rng):
     return cs
 
 
+# ---- the hypotheses `ns_min <= ns_max`, `ns_min <= ns0 <= ns_max` of the NR theorems are established by the code
+
+def o_parameter_guard(ctx, case):
+    """Parameter(name, initial, valmin, valmax) — the only source of initials and bounds of Minimizer.minimize —
+    rejects valmin > valmax and an initial value outside [valmin, valmax]; a NaN initial value (which it lets
+    through) ends in an exception of Minimizer.minimize, not in a result."""
+    from skyllh.core.minimizer import Minimizer, NR1dNsMinimizerImpl
+    from skyllh.core.parameters import Parameter, ParameterSet
+    from skyllh.core.random import RandomStateService
+    (v, lo, hi) = (_fl(case['initial']), _fl(case['lo']), _fl(case['hi']))
+    ok = lo <= hi and lo <= v <= hi
+    try:
+        p_ = Parameter('ns', v, lo, hi)
+        acc = True
+    except (ValueError, TypeError):
+        acc = False
+    if acc and not ok and v == v:
+        return 'Parameter(initial=%r, valmin=%r, valmax=%r) is accepted: the bounds / initial hypotheses of the minimisers are not guaranteed' % (v, lo, hi)
+    if not acc and ok:
+        return 'Parameter(initial=%r, valmin=%r, valmax=%r) is rejected' % (v, lo, hi)
+    if acc:
+        ps = ParameterSet([p_])
+        if not (np.array_equal(ps.floating_param_bounds, np.array([[lo, hi]])) and
+                (ps.floating_param_initials[0] == v or v != v)):
+            return 'ParameterSet hands out initials %r / bounds %r for Parameter(%r, %r, %r)' % (
+                ps.floating_param_initials, ps.floating_param_bounds, v, lo, hi)
+        a1, a2 = ps.floating_param_initials, ps.floating_param_initials
+        if np.shares_memory(a1, a2):
+            return 'ParameterSet.floating_param_initials hands out the same array twice (a minimiser writing into it would change the next start)'
+        if v != v:
+            with warnings.catch_warnings():
+                warnings.simplefilter('ignore')
+                try:
+                    r = Minimizer(NR1dNsMinimizerImpl(cfg=cfg())).minimize(RandomStateService(1), ps, lambda x: ((x[0] - 1) ** 2, 2 * (x[0] - 1), 2.0))
+                    return 'a NaN initial value gives the silent result %r' % (r[:2],)
+                except ValueError:
+                    pass
+    return None
+
+
+def gen_parameter_case(rng):
+    lo = rng.choice([0.0, -1.0, 2.5])
+    hi = lo + rng.choice([0.0, 1.0, 10.0, -1.0])
+    v = rng.choice([lo, hi, 0.5 * (lo + hi), lo - 1.0, hi + 1.0, float(np.nextafter(hi, np.inf)), float(np.nextafter(lo, -np.inf)), float('nan')])
+    return {'kind': 'parameter', 'initial': v, 'lo': lo, 'hi': hi, 'cls': 'parameter-guard'}
+
+
 # ---- ScipyMinimizerImpl: what happens to the bounds, per method
 
 SCIPY_METHODS = ['L-BFGS-B', 'TNC', 'SLSQP', 'COBYLA', 'Nelder-Mead', 'BFGS', 'Powell', 'CG', 'trust-constr', 'Newton-CG', 'COBYQA']
@@ -1925,7 +1995,7 @@ ORACLES = {
     'success_floor': o_success_floor, 'status_tables': o_status_tables,
     'history_contract': o_history_contract, 'functor_history': o_functor_history,
     'lbfgs_scripted': o_lbfgs_scripted, 'wrapper_exceptions': o_wrapper_exceptions, 'generic_objective': o_generic_objective,
-    'bounds_mode': o_bounds_mode,
+    'bounds_mode': o_bounds_mode, 'parameter_guard': o_parameter_guard,
 }
 
 
@@ -2273,7 +2343,8 @@ def run(ctx):
                          'numpy.linspace semantics re-implemented in Model/Minimizer.lean (compared on every run)',
                          'scipy.optimize (L-BFGS-B, generic methods), iminuit: wrapper contract observed only',
                          'IEEE rounding is outside the theorems; NaN-free objectives']
-    ctx.assumptions += ['objectives return finite numbers (no NaN)', 'ns_min <= ns_max, initial value <= ns_max (guaranteed by Parameter)',
+    ctx.assumptions += ['objectives return finite numbers (no NaN)', 'ns_min <= ns_max, ns_min <= initial value <= ns_max: established by Parameter (checked on every run by the parameter_guard oracle); direct callers of the implementations must provide it',
+                        'wrapper: every implementation returns as many fit values as there are bounds (hlen)',
                         'CRSMinimizerImpl not exercised (nlopt is not installed)']
     cases = []
     for _ in range(ctx.n(140, 3000)):
@@ -2460,6 +2531,11 @@ def run(ctx):
             ctx.count(cs['cls'].rsplit(':', 2)[0] + ':' + cs['cls'].rsplit(':', 1)[1])
             check('box_contract', cs)
 
+    for _ in range(ctx.n(40, 300)):
+        cs = gen_parameter_case(rng)
+        ctx.case(key={k: v for k, v in cs.items() if k != 'cls'})
+        ctx.count(cs['cls'])
+        check('parameter_guard', cs)
     # histories: one Minimizer / implementation object, several minimisations of the same function object
     hist_impls = ['nr'] + box_impls
     for i in range(ctx.n(3 * len(hist_impls), 400)):
@@ -2510,8 +2586,8 @@ MANIFEST = dict(
           'step <= ns_tol and slope <= threshold, flags -2/-1 only at that bound with the Newton step pointing outward; NR+scan = '
           'first best NR result over the scan values (strictly better than every earlier one), niter summed, linspace inside the bounds; Minimizer.minimize over an arbitrary sequence of attempts raises unless the '
           'last attempt converged, returns in-bounds values, re-evaluates after clipping, never clips an in-bounds (NR) result; '
-          'maximize negates; the cached function-with-gradients functor is transparent and no state survives a minimize call; the COBYLA inequality constraints built from the bounds hold iff every x[i] is within its own bounds. Over ordered fields / the reals: slope sign at a forced bound, and for a convex objective the forced '
-          'bound is the exact optimum, a flag-0 point is within |slope|*(hi-lo) of it (so never below the initial point up to that). '
+          'maximize negates (value and gradients); status tables of all implementations (converged = the optimiser\'s own success, nlopt 5/6 never), exceptions of implementation / objective are never swallowed, a negative max_steps is never converged; the cached function-with-gradients functor is transparent and no state survives a minimize call; the COBYLA inequality constraints built from the bounds hold iff every x[i] is within its own bounds. Over ordered fields / the reals: slope sign at a forced bound, and for a convex objective the forced '
+          'bound is the exact optimum, a flag-0 point is within |slope|*(hi-lo) of it and, under curvature bounds m <= f\'\' <= M, within ns_tol + thr/m of the stationary point with f(x*) <= f(y) + M/2 (ns_tol + thr/m)^2 for every y incl. the initial point. '
           'The executable model is driven with the recorded objective triples of the real NR1dNsMinimizerImpl / '
           'NRNsScan2dMinimizerImpl / Minimizer / LLHRatio.maximize and compared bit-exactly (then decisions exact, values 1e-9).'),
     note=('Open findings (statement + counterexample in Lean, replayed on the code): NR+scan ignores the initial value of the scanned parameter '
